@@ -4,6 +4,7 @@ package c03
 
 import (
 	"bytes"
+	"errors"
 
 	"github.com/c2FmZQ/ech"
 
@@ -13,6 +14,7 @@ import (
 	"verif/internal/echx"
 	"verif/internal/enum"
 	"verif/internal/ev"
+	"verif/internal/memnet"
 	"verif/internal/tlsref"
 	"verif/internal/tlsx"
 )
@@ -275,7 +277,7 @@ func SelfValidate(key echx.KeyPair) error {
 }
 
 func Run(r *ev.Run) {
-	r.Rule("E1 exhaustive: 3 AEADs x every subset of 6 shared extensions chosen for compression x every position of the ech_outer_extensions marker x 3 positions of the inner ECH extension x 3 outer layouts (ECH first/middle/last, unrelated extensions interleaved) x padding{0,1,31,32} x session-id length{0,1,32} x key_share 36B/1220B x uncompressed shared extensions kept/omitted x session id inside the encoded inner {empty, 7 B, 32 B differing from the outer one}, plus a size family up to 30 kB (outer hello up to 61 kB) (hellos spanning several records, in and out) small hellos fragmented by the client at 11 cut patterns (incl. 3-4 records with a last fragment of 1-12 bytes), reconstructed hellos of exactly k*2^14 and k*2^14 +-1 bytes, inner hellos without server_name and/or ALPN under outer hellos that carry them, inner hellos carrying a padding extension (type 21) of 0/1/199 bytes, and inner hellos whose server name has upper-case letters and whose ALPN list contains GREASE ids (reported verbatim), every reference count 1..127 of ech_outer_extensions (first/last/alternating n of n, n+2 and - at the limit - 128, 129, 200 common extensions), and ALPN lists of 1..20000 names (around every power of two from 2^8 to 2^14), the inner hello's own or taken from the outer hello through a reference, the reported list being the one read out of the reference reconstruction; each sealed by the reference sender and fed to the real NewConn; forwarded record compared byte for byte with the reference reconstruction. distinct = distinct outer-hello byte strings")
+	r.Rule("E1 exhaustive: 3 AEADs x every subset of 6 shared extensions chosen for compression x every position of the ech_outer_extensions marker x 3 positions of the inner ECH extension x 3 outer layouts (ECH first/middle/last, unrelated extensions interleaved) x padding{0,1,31,32} x session-id length{0,1,32} x key_share 36B/1220B x uncompressed shared extensions kept/omitted x session id inside the encoded inner {empty, 7 B, 32 B differing from the outer one}, plus a size family up to 30 kB (outer hello up to 61 kB) (hellos spanning several records, in and out) small hellos fragmented by the client at 11 cut patterns (incl. 3-4 records with a last fragment of 1-12 bytes), reconstructed hellos of exactly k*2^14 and k*2^14 +-1 bytes, inner hellos without server_name and/or ALPN under outer hellos that carry them, inner hellos carrying a padding extension (type 21) of 0/1/199 bytes, and inner hellos whose server name has upper-case letters and whose ALPN list contains GREASE ids (reported verbatim), every reference count 1..127 of ech_outer_extensions (first/last/alternating n of n, n+2 and - at the limit - 128, 129, 200 common extensions), and ALPN lists of 1..20000 names (around every power of two from 2^8 to 2^14), the inner hello's own or taken from the outer hello through a reference, the reported list being the one read out of the reference reconstruction, and the hello that follows a HelloRetryRequest (history: accepted first hello, backend HelloRetryRequest, second hello sealed with the same HPKE context at sequence number 1): every pair (subset compressed in the first hello, subset compressed in the second) of the 6 shared extensions x cookie extension {absent, carried directly, compressed too} at 4 outer positions, marker positions independent, and the second hello framed in two records cut at every offset of the message and in 3..6 records with first fragments of 1..5 octets; each sealed by the reference sender and fed to the real NewConn; forwarded record compared byte for byte with the reference reconstruction. distinct = distinct outer-hello byte strings")
 	r.Assume("tlsref/hpkeref reference sender is correct (validated on every run against crypto/tls and RFC 9180 vectors)", "outer hellos do not repeat an extension type")
 	key := echx.NewKey("c03", 7, echx.AllSuites, "public.example")
 	if err := SelfValidate(key); err != nil {
@@ -602,6 +604,7 @@ func Run(r *ev.Run) {
 	r.Set("reference_count_cases", refCases)
 	r.Set("alpn_name_count_cases", len(wide)-refCases)
 	extra += len(wide)
+	extra += retriedFamily(r, key, keys)
 	r.Set("boundary_and_optional_extension_cases", extra)
 	r.Set("states", len(cases))
 	r.Set("traces_validated_against_impl", len(cases))
@@ -692,4 +695,247 @@ func diffKind(got, want []byte) string {
 		return ":header"
 	}
 	return ":content"
+}
+
+// ---- round 14: the hello that follows a HelloRetryRequest ----
+
+// cookieExt is the cookie extension (type 44, RFC 8446 4.2.2) a retried hello echoes from the HelloRetryRequest.
+func cookieExt() tlsref.Ext {
+	c := tlsref.DetBytes("cookie", 40)
+	return tlsref.Ext{Type: 44, Data: append([]byte{byte(len(c) >> 8), byte(len(c))}, c...)}
+}
+
+// second describes how the hello that answers the HelloRetryRequest differs from a first hello of layout L: it always has
+// another key_share (RFC 8446 4.1.2); Cookie: 0 = no cookie, 1 = the cookie stands in the outer hello and directly in the
+// encoded inner hello, 2 = it stands in the outer hello and the inner hello takes it from there (one more reference);
+// CookieAt: where the outer hello carries it (0 first, 1 in front of key_share, 2 behind key_share, 3 last).
+type second struct {
+	L        layout `json:"layout"`
+	Cookie   int    `json:"cookie"`
+	CookieAt int    `json:"cookie_outer_pos"`
+	Cuts     []int  `json:"record_cuts,omitempty"` // the message is framed in records cut at these offsets
+}
+
+// buildSecond is buildLayout for the retried hello. The list of references is written from the outer hello: the chosen
+// shared extensions and (Cookie == 2) the cookie, in the order the outer hello carries them.
+func buildSecond(key echx.KeyPair, v second) echx.Spec {
+	l := v.L
+	s := buildLayout(key, l)
+	ks := tlsref.KeyShare(65)
+	if l.BigShare {
+		ks = tlsref.KeyShare(1249)
+	}
+	o := s.Outer.Clone()
+	for i, e := range o.Exts {
+		if e.Type == tlsref.ExtKeyShare {
+			o.Exts[i] = ks
+		}
+	}
+	inner := slices.Clone(s.EncInner)
+	for i, e := range inner {
+		if e.Type == tlsref.ExtKeyShare {
+			inner[i] = ks
+		}
+	}
+	if v.Cookie > 0 {
+		ksAt := slices.IndexFunc(o.Exts, func(e tlsref.Ext) bool { return e.Type == tlsref.ExtKeyShare })
+		at := []int{0, ksAt, ksAt + 1, len(o.Exts)}[v.CookieAt]
+		o.Exts = slices.Insert(o.Exts, at, cookieExt())
+	}
+	switch v.Cookie {
+	case 1:
+		inner = append(inner, cookieExt())
+	case 2:
+		want := map[uint16]bool{44: true}
+		sh := shared(l.BigShare)
+		for _, i := range l.Refs {
+			want[sh[i].Type] = true
+		}
+		var types []uint16
+		for _, e := range o.Exts {
+			if want[e.Type] {
+				types = append(types, e.Type)
+			}
+		}
+		if len(types) != len(l.Refs)+1 {
+			ev.ToolError("c03: the retried outer hello carries %d of the %d extensions to reference", len(types), len(l.Refs)+1)
+		}
+		m := tlsref.OuterExtensions(types...)
+		if at := slices.IndexFunc(inner, func(e tlsref.Ext) bool { return e.Type == tlsref.ExtOuterExtensions }); at >= 0 {
+			inner[at] = m
+		} else {
+			inner = slices.Insert(inner, min(l.MarkerAt, len(inner)), m)
+		}
+	}
+	s.Outer, s.EncInner = o, inner
+	s.EchIdx = slices.IndexFunc(o.Exts, func(e tlsref.Ext) bool { return e.Type == tlsref.ExtECH })
+	s.RetrySeq = 1 // same ephemeral key (EphLabel depends on the AEAD only), context advanced by one, empty enc
+	return s
+}
+
+// retriedFamily: round 14. "Whenever ECH is accepted" covers the hello that follows a HelloRetryRequest: the backend must be
+// handed the ClientHelloInner the client committed to in THAT hello - decrypted, padding removed, the session id of the outer
+// hello it travelled in, its own ech_outer_extensions list resolved against its own outer hello. How a client ENCODES the
+// inner hello is its choice per hello (the cookie exists in the second hello only and may be compressed; key_share may be
+// compressed in one hello and not in the other; one of the two may have no marker at all), and so is the framing (RFC 8446
+// 5.1: a handshake message may be split over records at any offset, only empty fragments are forbidden). So the PAIR
+// (compressed subset of hello 1, compressed subset of hello 2) is walked as a full product, x cookie absent / direct /
+// compressed, and the second hello is framed in two records at every offset and in several records with first fragments
+// of 1..5 octets. Oracle: what Read yields after the HelloRetryRequest is exactly the reference reconstruction of the SECOND
+// hello (never the outer hello's records), the accessors keep reporting the reconstructed hello's values, nothing but the
+// HelloRetryRequest reaches the client.
+func retriedFamily(r *ev.Run, key echx.KeyPair, keys []ech.Key) int {
+	type pairCase struct {
+		first layout
+		sec   second
+		tag   string
+	}
+	var cases []pairCase
+	paddings := []int{0, 1, 31, 32}
+	var subsets [][]int
+	enum.Subsets(6, func(refs []int) { subsets = append(subsets, slices.Clone(refs)) })
+	relation := func(a, b []int, cookie int) string {
+		switch {
+		case len(a) == 0 && len(b) == 0 && cookie != 2:
+			return ":no-marker-in-either-hello"
+		case len(a) == 0:
+			return ":marker-in-the-second-hello-only"
+		case len(b) == 0 && cookie != 2:
+			return ":marker-in-the-first-hello-only"
+		case slices.Equal(a, b) && cookie != 2:
+			return ":same-reference-list-in-both-hellos"
+		case slices.Equal(a, b):
+			return ":second-hello-references-the-cookie-too"
+		}
+		return ":reference-lists-differ"
+	}
+	k := 0
+	for _, refs1 := range subsets {
+		for _, refs2 := range subsets {
+			for cookie := 0; cookie < 3; cookie++ {
+				aeads, kinds := []uint16{uint16(1 + k%3)}, []int{(k / 3) % 3}
+				if r.Thorough() {
+					aeads, kinds = []uint16{1, 2, 3}, []int{0, 1, 2}
+				}
+				for _, aead := range aeads {
+					for _, ok := range kinds {
+						big := k%5 == 0
+						l1 := layout{AEAD: aead, Refs: refs1, MarkerAt: k % (9 - len(refs1)), ECHInAt: []int{0, 2, 99}[(k/2)%3], OuterKind: ok, Padding: paddings[k%4], SID: 32, BigShare: big}
+						l2 := layout{AEAD: aead, Refs: refs2, MarkerAt: (k / 7) % (9 - len(refs2)), ECHInAt: []int{0, 2, 99}[(k/5)%3], OuterKind: ok, Padding: paddings[(k/4)%4], SID: 32, BigShare: big}
+						cases = append(cases, pairCase{l1, second{L: l2, Cookie: cookie, CookieAt: (k / 3) % 4}, relation(refs1, refs2, cookie)})
+						k++
+					}
+				}
+			}
+		}
+	}
+	pairs := len(cases)
+	// framing of the second hello: four pairs x every two-record split x some splits into 3..6 records whose first fragments are tiny
+	for pi, p := range []struct {
+		a, b   []int
+		cookie int
+	}{{nil, nil, 0}, {[]int{1}, []int{1}, 2}, {[]int{0, 1, 2, 3, 4, 5}, nil, 1}, {[]int{1, 2}, []int{0, 1, 4}, 2}} {
+		l1 := layout{AEAD: uint16(1 + pi%3), Refs: p.a, MarkerAt: 1, ECHInAt: 2, OuterKind: pi % 3, Padding: paddings[pi], SID: 32}
+		l2 := l1
+		l2.Refs, l2.MarkerAt, l2.Padding = p.b, 2, paddings[(pi+1)%4]
+		v := second{L: l2, Cookie: p.cookie, CookieAt: pi}
+		n := len(buildSecond(key, v).Build().Outer.Msg())
+		var cutSets [][]int
+		for c := 1; c < n; c++ {
+			cutSets = append(cutSets, []int{c})
+		}
+		cutSets = append(cutSets, []int{1, 2}, []int{1, 2, 3}, []int{1, 2, 3, 4}, []int{1, 2, 3, 4, 5}, []int{2, 4}, []int{3, 6, 9}, []int{1, 5}, []int{2, n - 1}, []int{3, 4, n - 2}, []int{4, 8}, []int{5, 9, n - 12}, []int{1, n - 3, n - 2, n - 1}, []int{3, 40, 41, n - 1})
+		for _, cuts := range cutSets {
+			v.Cuts = cuts
+			cases = append(cases, pairCase{l1, v, fmt.Sprintf(":second-hello-in-%d-records", len(cuts)+1)})
+		}
+	}
+	enum.ParallelFor(len(cases), func(i int) {
+		evalRetried(r, key, keys, cases[i].first, cases[i].sec, cases[i].tag)
+	})
+	r.Set("retried_hello_reference_list_pairs", pairs)
+	r.Set("retried_hello_framings", len(cases)-pairs)
+	return len(cases)
+}
+
+// evalRetried drives accepted first hello -> Read -> backend HelloRetryRequest -> second hello on one Conn.
+func evalRetried(r *ev.Run, key echx.KeyPair, keys []ech.Key, l1 layout, v second, tag string) {
+	b1 := buildLayout(key, l1).Build()
+	b2 := buildSecond(key, v).Build()
+	if b1.Expected == nil || b2.Expected == nil {
+		ev.ToolError("c03 generator produced an unresolvable reference list: %+v / %+v", l1, v)
+	}
+	first := tlsref.FragmentMax(0x0301, b1.Outer.Msg())
+	stream := tlsref.Fragment(0x0303, b2.Outer.Msg(), v.Cuts...)
+	hrr := echx.HRRRecord(b1.Outer.SessionID)
+	replay := map[string]any{"history": "first, Read, backend writes hello_retry_request, second, Read until nothing is left", "first_layout": l1, "second": v, "first": echx.Hex(first), "hello_retry_request": echx.Hex(hrr), "stream": echx.Hex(stream), "encoded_inner_of_second": echx.Hex(b2.EncodedInner), "keys": echx.KeysDoc(keys)}
+	r.Add("transitions", 1)
+	oc := "ok"
+	defer func() {
+		r.Eval(string(first)+"|hrr|"+string(stream), "retried"+tag+" -> "+oc)
+	}()
+	fail := func(key, text string) {
+		oc = key
+		r.Violation(key, text, replay)
+	}
+	sess, err, p := echx.OpenSession(first, keys)
+	if p != nil || err != nil || !sess.C.ECHAccepted() {
+		fail("retried:first-hello-not-accepted"+tag, fmt.Sprintf("valid first hello: err=%v panic=%v", err, p))
+		return
+	}
+	got1, err, p := sess.ReadOnce()
+	want1 := b1.Expected.Msg()
+	if m, rest := tlsref.HandshakeBytes(got1, len(want1)); err != nil || p != nil || !bytes.Equal(m, want1) || len(rest) != 0 {
+		fail("retried:first-hello-reconstruction-differs"+tag, fmt.Sprintf("reading the first hello: err=%v panic=%v\n got  %x\n want %x", err, p, m[:min(len(m), 400)], want1[:min(len(want1), 400)]))
+		return
+	}
+	if n, err, p := sess.BackendSend(hrr); err != nil || p != nil || n != len(hrr) || !bytes.Equal(sess.T.OutBytes(), hrr) {
+		fail("retried:hello-retry-request-not-relayed"+tag, fmt.Sprintf("writing the HelloRetryRequest: n=%d err=%v panic=%v, the client received %x", n, err, p, sess.T.OutBytes()))
+		return
+	}
+	// everything the backend is handed for the second hello: Read until the transport has nothing left
+	sess.T.Feed(stream)
+	var fwd []byte
+	var rerr error
+	for i := 0; i < len(v.Cuts)+8 && rerr == nil; i++ {
+		var d []byte
+		var p any
+		d, rerr, p = sess.ReadOnce()
+		if p != nil {
+			fail("retried:panic"+tag, fmt.Sprintf("panic while reading the second hello: %v", p))
+			return
+		}
+		fwd = append(fwd, d...)
+	}
+	wantMsg := b2.Expected.Msg()
+	switch {
+	case rerr == nil:
+		fail("retried:read-does-not-end"+tag, fmt.Sprintf("Read keeps returning data after the second hello (%d bytes so far)", len(fwd)))
+		return
+	case !errors.Is(rerr, memnet.ErrStall):
+		fail("retried:valid-second-hello-refused:"+echx.ErrClass(rerr)+tag, fmt.Sprintf("a valid second hello (references %v, cookie mode %d; the first hello's references %v) was refused: %v; delivered before that: %d bytes; written to the client after the HelloRetryRequest: %x", v.L.Refs, v.Cookie, l1.Refs, rerr, len(fwd), sess.T.OutBytes()[len(hrr):]))
+		return
+	}
+	got, rest := tlsref.HandshakeBytes(fwd, len(wantMsg))
+	recs, _ := tlsref.SplitRecords(fwd)
+	wellFramed := len(rest) == 0
+	for _, rc := range recs {
+		if rc[0] != 22 || len(rc)-5 > 16384 || len(rc) == 5 {
+			wellFramed = false
+		}
+	}
+	if !bytes.Equal(got, wantMsg) || !wellFramed || len(wantMsg) <= 16384 && len(recs) != 1 {
+		what := diffKind(append([]byte{0, 0, 0, 0, 0}, got...), append([]byte{0, 0, 0, 0, 0}, wantMsg...))
+		if om := b2.Outer.Msg(); bytes.Equal(got, om[:min(len(om), len(got))]) || bytes.Equal(fwd, stream) {
+			what = ":outer-hello-forwarded"
+		}
+		fail("retried:reconstruction-differs"+tag+what, fmt.Sprintf("what the backend receives for the second hello (framed by the client in %d records) differs from the reference reconstruction of the second hello (well framed: %v, %d records; equal to the client's own records: %v):\n got  %x\n want %x", len(v.Cuts)+1, wellFramed, len(recs), bytes.Equal(fwd, stream), got[:min(len(got), 400)], wantMsg[:min(len(wantMsg), 400)]))
+	}
+	wantName, wantALPN := valuesOf(b2.Expected)
+	if !sess.C.ECHAccepted() || sess.C.ServerName() != wantName || !slices.Equal(sess.C.ALPNProtos(), wantALPN) {
+		fail("retried:reported-name-alpn"+tag, fmt.Sprintf("after the second hello: ECHAccepted=%v ServerName=%q ALPN=%q, want true %q %q (the values of the reconstructed hello)", sess.C.ECHAccepted(), sess.C.ServerName(), sess.C.ALPNProtos(), wantName, wantALPN))
+	}
+	if out := sess.T.OutBytes(); !bytes.Equal(out, hrr) || sess.T.CloseCount != 0 {
+		fail("retried:wrote-to-client"+tag, fmt.Sprintf("the Conn wrote %x to the client / closed the transport (%d) on a valid second hello", out[min(len(out), len(hrr)):], sess.T.CloseCount))
+	}
 }
